@@ -255,12 +255,21 @@ pub fn enumerate_walks(p: &Program, cfg: &MachineCfg, limit: usize) -> Option<Wa
         let mut m = Machine::new(p, cfg.clone(), false);
         let nt = p.n_threads();
         let mut steps = 0;
+        let mut last: Option<usize> = None;
         loop {
             let en: Vec<usize> = (0..nt).filter(|&t| m.enabled(t)).collect();
             if en.is_empty() {
                 break;
             }
-            let t = en[sc.choose(en.len())];
+            let forced = match last {
+                Some(l) if cfg.switch_only_at_branch_points && en.contains(&l) && m.next_is_nonbranching(l) => Some(l),
+                _ => None,
+            };
+            let t = match forced {
+                Some(l) => l,
+                None => en[sc.choose(en.len())],
+            };
+            last = Some(t);
             let was_na = m.has_na_events();
             if m.step(t, None, &mut sc).is_err() {
                 panic!("enumeration step rejected");
@@ -302,3 +311,71 @@ pub fn class_of_terminal(t: &Terminal) -> Option<FailClass> {
 }
 
 pub fn _unused(_: &Rel) {}
+
+// ------------------------------------------------------------------------------------------
+// O4: independent re-implementation of the depth-first stepping rule over hook records.
+
+use loom::verif::{Branch, ThreadStatus};
+
+fn chosen(b: &Branch) -> (u8, i32) {
+    match b {
+        Branch::Schedule { active, .. } => (0, active.map(|x| x as i32).unwrap_or(-1)),
+        Branch::Load { pos, .. } => (1, *pos as i32),
+        Branch::Spurious { spur, .. } => (2, *spur as i32),
+    }
+}
+
+/// Does the branch (as recorded at the END of its iteration) still have an unexplored alternative?
+fn has_open_alternative(b: &Branch) -> bool {
+    match b {
+        Branch::Schedule { threads, exploring, .. } => *exploring && threads.iter().any(|t| *t == ThreadStatus::Pending),
+        Branch::Load { values, pos, exploring } => *exploring && (*pos as usize) + 1 < values.len(),
+        Branch::Spurious { spur, exploring } => *exploring && !*spur,
+    }
+}
+
+/// index of the deepest branch with an open alternative
+pub fn o4_first_open(path: &[Branch]) -> Option<usize> {
+    (0..path.len()).rev().find(|&i| has_open_alternative(&path[i]))
+}
+
+/// `cur` must be the depth-first successor of `prev`.
+pub fn o4_step(prev: &[Branch], cur: &[Branch]) -> Result<(), String> {
+    let b = match o4_first_open(prev) {
+        Some(b) => b,
+        None => return Err("the previous path had no unexplored alternative, yet another iteration ran".into()),
+    };
+    if cur.len() <= b {
+        return Err(format!("the new path is shorter ({}) than the branch that had to be advanced ({})", cur.len(), b));
+    }
+    for i in 0..b {
+        if chosen(&prev[i]) != chosen(&cur[i]) {
+            return Err(format!("branch {} (before the advanced branch {}) changed from {:?} to {:?}", i, b, chosen(&prev[i]), chosen(&cur[i])));
+        }
+    }
+    match (&prev[b], &cur[b]) {
+        (Branch::Schedule { threads: pt, .. }, Branch::Schedule { threads: ct, active, .. }) => {
+            let next = pt.iter().position(|t| *t == ThreadStatus::Pending).unwrap();
+            if *active != Some(next as u8) {
+                return Err(format!("schedule branch {}: expected thread {} (first pending) to run next, got {:?}", b, next, active));
+            }
+            for (i, t) in pt.iter().enumerate() {
+                if matches!(t, ThreadStatus::Visited | ThreadStatus::Active) && ct[i] != ThreadStatus::Visited {
+                    return Err(format!("schedule branch {}: thread {} was explored before but is {:?} now", b, i, ct[i]));
+                }
+            }
+        }
+        (Branch::Load { pos: pp, values: pv, .. }, Branch::Load { pos: cp, values: cv, .. }) => {
+            if *cp != *pp + 1 || pv != cv {
+                return Err(format!("load branch {}: expected candidate {} of {:?}, got {} of {:?}", b, pp + 1, pv, cp, cv));
+            }
+        }
+        (Branch::Spurious { .. }, Branch::Spurious { spur, .. }) => {
+            if !*spur {
+                return Err(format!("spurious branch {} not advanced", b));
+            }
+        }
+        _ => return Err(format!("branch {} changed kind", b)),
+    }
+    Ok(())
+}
